@@ -206,10 +206,14 @@ func body(s *simrt.Sim, tier string) {
 			}
 		})
 	}
-	s.Go("observer", func() {
-		s.Block("pool.done", func() { <-p.Done() })
-		check("observer")
-	})
+	// (in half of the runs nobody ever asks for the Done channel: the pool is then watched through Err() alone)
+	withObserver := s.Choose(2, "observer") == 0
+	if withObserver {
+		s.Go("observer", func() {
+			s.Block("pool.done", func() { <-p.Done() })
+			check("observer")
+		})
+	}
 	if !s.Join(time.Hour, names...) {
 		s.Fail("hang", "pool operations did not return\n"+s.Dump())
 		return
@@ -241,7 +245,7 @@ func body(s *simrt.Sim, tier string) {
 		s.Fail("never-done", "every member ended (or Cancel returned) but the pool context is not done\n"+s.Dump())
 		return
 	}
-	if !s.Join(time.Hour, "observer") {
+	if withObserver && !s.Join(time.Hour, "observer") {
 		s.Fail("hang", "observer stuck")
 		return
 	}
